@@ -63,6 +63,8 @@ def gen_cases(tier, seed):
             cases.append({"kind": "valuemap", "variant": i, "rep": rep})
         for i in range(6):
             cases.append({"kind": "blob", "variant": i, "rep": rep})
+        for i in range(12):
+            cases.append({"kind": "depths", "variant": i, "rep": rep})
         for i in range(4):
             cases.append({"kind": "comments", "variant": i, "rep": rep})
         for i in range(4):
@@ -188,7 +190,7 @@ def run_case(case, rec):
     rng = random.Random(case["seed"])
     d = tempfile.mkdtemp(prefix="gvm_")
     try:
-        {"shape": do_shape, "gaps": do_gaps, "numeric": do_numeric, "strings": do_strings, "valuemap": do_valuemap, "blob": do_blob, "comments": do_comments, "metadata": do_metadata}[case["kind"]](case, rec, rng, d)
+        {"shape": do_shape, "gaps": do_gaps, "numeric": do_numeric, "strings": do_strings, "valuemap": do_valuemap, "blob": do_blob, "depths": do_depths, "comments": do_comments, "metadata": do_metadata}[case["kind"]](case, rec, rng, d)
     finally:
         shutil.rmtree(d, ignore_errors=True)
         gc.collect()
@@ -316,6 +318,26 @@ def do_shape(case, rec, rng, d):
             elif err is None and target is not None:
                 held = None if target.values is None else len(np.ravel(target.values))
                 rec.check("C08.roundtrip", held == m, op=entry + ":live", cls=kind, attr=f"shape:{label}", detail=f"{label} with {m} entries for {m} elements is held as {held} entries")
+    # an unsupported element type: complex numbers cannot be stored in any of the kinds
+    for cdt in ("complex64", "complex128"):
+        arr = (np.arange(n) % 2 + 1).astype(cdt) + (0 if kind == "boolean" else 0) + 1j * np.array([2, 0, 1, 0, 5, 0][:n])
+        target = err = None
+        try:
+            if entry == "add_data":
+                target = obj.add_data({f"cx{cdt}": {"values": arr, "association": "VERTEX", **extra}})
+            else:
+                target = obj.add_data({f"cx{cdt}": {"values": make(n), "association": "VERTEX", **extra}})
+                target.values = arr
+        except Exception as exc:  # noqa: BLE001
+            if not exc_origin(exc)[0]:
+                raise
+            err = exc
+        rec.see("unsupported-dtype-cells")
+        if err is not None:
+            rec.see("rejected-as-required")
+        else:
+            held = None if target is None or target.values is None else np.asarray(target.values).tolist()
+            rec.check("C08.silently-altered", False, op=entry, cls=kind, attr=f"unsupported-type:{cdt}", detail=f"values {arr.tolist()} ({cdt}) were accepted; the data now holds {held}")
     uid = obj.uid
     ws.close()
     with Workspace(path, mode="r") as ws2:
@@ -628,9 +650,112 @@ def do_blob(case, rec, rng, d):
     e = ws2.get_entity(uid)[0]
     rec.check("C08.roundtrip", e is not None and e.values == blob and e.file_name == name, op="blob:reopened", cls="file", attr=f"blob-{v}", detail=f"blob of {len(blob)} bytes read back as {None if e is None or e.values is None else len(e.values)} bytes, equal={None if e is None else e.values == blob}; name {None if e is None else e.file_name!r}")
     ws2.close()
+    # the stored file is renamed in a later session (the bytes were not read in that session in half of the cases)
+    new_name = ["renamed.bin", "é2.dat", "other name.txt", "a.b.d", "y" * 40 + ".bin", "zz"][v]
+    ws3 = Workspace(path, mode="r+")
+    e = ws3.get_entity(uid)[0]
+    if (v + case["rep"]) % 2:
+        _ = e.values
+    try:
+        e.file_name = new_name
+        renamed = True
+    except Exception as exc:  # noqa: BLE001
+        if not exc_origin(exc)[0]:
+            raise
+        renamed = False
+        rec.see("file-renames-refused:" + type(exc).__name__)
+    del e
+    ws3.close()
+    if renamed:
+        rec.see("stored-files-renamed")
+        ws4 = Workspace(path, mode="r")
+        e = ws4.get_entity(uid)[0]
+        rec.check("C08.roundtrip", e is not None and e.values == blob and e.file_name == new_name, op="blob:renamed", cls="file", attr=f"blob-{v}", detail=f"stored file renamed to {new_name!r} in a later session: blob of {len(blob)} bytes reads back as {None if e is None or e.values is None else len(e.values)} bytes, equal={None if e is None else e.values == blob}; name {None if e is None else e.file_name!r}")
+        ws4.close()
     rec.nontrivial = True
     rec.shape = ["blob", v]
     rec.sample = {"blob_len": len(blob), "name": name}
+
+
+def do_depths(case, rec, rng, d):
+    """Channels logged on a drillhole at given depths (in the order the samples were taken, several channels per call or one call
+    each): every value reads back at its own depth, and depths a channel has no value for hold the no-data marker of its kind."""
+    from geoh5py.objects import Drillhole
+    from geoh5py.shared import INTEGER_NDV
+    from geoh5py.workspace import Workspace
+
+    path = os.path.join(d, "dh.geoh5")
+    ws = Workspace.create(path)
+    hole = Drillhole.create(ws, collar=np.r_[0.0, 0.0, 0.0], surveys=np.c_[[0.0, 200.0], [0.0, 0.0], [-90.0, -90.0]], name="h")
+    pool = [2.5 * i for i in range(1, 30)]
+    n_ch = 2 + case["variant"] % 3
+    spec, expect = {}, {}
+    for c in range(n_ch):
+        k = rng.randint(2, 6)
+        depths = rng.sample(pool, k)
+        if case["variant"] % 4 == 3:
+            depths = sorted(depths)
+        kind = ["float", "integer", "float"][(c + case["variant"]) % 3]
+        vals = (np.array(depths) * 10 + c + 0.25) if kind == "float" else (np.array(depths) * 4 + c).astype("int32")
+        spec[f"ch{c}"] = {"depth": np.array(depths), "values": vals.copy()}
+        if kind == "integer":
+            spec[f"ch{c}"]["type"] = "integer"
+        expect[f"ch{c}"] = (kind, dict(zip(depths, vals.tolist())))
+    one_call = case["variant"] % 2 == 0
+    rec.see("depth-logs:one-call" if one_call else "depth-logs:call-per-channel")
+    try:
+        if one_call:
+            hole.add_data({k: dict(v, depth=v["depth"].copy(), values=v["values"].copy()) for k, v in spec.items()})
+        else:
+            for k, v in spec.items():
+                hole.add_data({k: dict(v, depth=v["depth"].copy(), values=v["values"].copy())})
+    except Exception as exc:  # noqa: BLE001
+        if not exc_origin(exc)[0]:
+            raise
+        rec.see("depth-logs-refused:" + type(exc).__name__)
+        ws.close()
+        rec.nontrivial = True
+        rec.shape = ["depths", case["variant"], "refused"]
+        return
+    uid = hole.uid
+
+    def judge(h, where):
+        depths = np.asarray(h.depths.values if hasattr(h, "depths") and h.depths is not None else [])
+        for name, (kind, by_depth) in expect.items():
+            dd = h.get_data(name)[0]
+            vals = None if dd is None or dd.values is None else np.asarray(dd.values)
+            if vals is not None and where == ":live" and len(vals) < len(depths):
+                # the cached array of an earlier channel is completed when it is next read from the file: the vertices added
+                # since are gaps of that channel
+                rec.see("live-arrays-shorter-than-the-hole")
+                vals = np.r_[vals.astype(float) if kind == "float" else vals, [np.nan if kind == "float" else INTEGER_NDV] * (len(depths) - len(vals))]
+            if vals is None or len(vals) != len(depths):
+                rec.fail("C08.roundtrip", op="depths" + where, cls=kind, attr="depth-log", detail=f"{name}: {None if vals is None else len(vals)} values for {len(depths)} depths")
+                continue
+            bad, gaps_bad = [], []
+            for i, dep in enumerate(depths.tolist()):
+                key = next((q for q in by_depth if abs(q - dep) < 1e-6), None)
+                if key is not None:
+                    if not float(vals[i]) == float(by_depth[key]):
+                        bad.append((dep, by_depth[key], vals[i].item()))
+                elif kind == "float" and not vals[i] != vals[i]:
+                    gaps_bad.append((dep, vals[i].item()))
+                elif kind == "integer" and int(vals[i]) != INTEGER_NDV:
+                    gaps_bad.append((dep, vals[i].item()))
+            missing = [q for q in by_depth if not any(abs(q - dep) < 1e-6 for dep in depths.tolist())]
+            rec.check("C08.roundtrip", not bad and not missing, op="depths" + where, cls=kind, attr="depth-log", detail=f"{name} ({'one call' if one_call else 'own call'}): (depth, logged, read) {bad[:4]}; logged depths absent from the hole {missing[:4]}")
+            rec.check("C08.gap-code", not gaps_bad, op="depths" + where, cls=kind, attr="depth-log", detail=f"{name}: depths without a logged value read (depth, value) {gaps_bad[:4]}")
+
+    judge(hole, ":live")
+    del hole
+    ws.close()
+    ws2 = Workspace(path, mode="r")
+    judge(ws2.get_entity(uid)[0], ":reopened")
+    ws2.close()
+    rec.see("depth-logs")
+    rec.nontrivial = True
+    rec.shape = ["depths", case["variant"], n_ch, sorted((k, v[0], len(v[1])) for k, v in expect.items())]
+    rec.sample = {"kind": "depths", "channels": n_ch, "one_call": one_call}
 
 
 def do_comments(case, rec, rng, d):
